@@ -23,6 +23,8 @@ def edit(draw, ops=OPS):
         "new": draw(st.integers(0, len(NEW_EXPRS) - 1)),
         "idx": draw(st.integers(0, 3)),
         "flag": draw(st.booleans()),
+        # append: prefer a node that has an EMPTY list argument (foo(), a list emptied earlier) -- shared-empty-list bugs hide there
+        "pe": draw(st.booleans()),
     }
 
 
@@ -34,6 +36,10 @@ def _new(spec, k=0):
 
 def _pick(root, spec):
     nodes = list(root.walk())
+    if spec.get("pe") and spec["op"] == "append":
+        empties = [n for n in nodes if any(type(v) is list and not v for v in n.args.values())]
+        if empties:
+            return empties[spec["node"] % len(empties)]
     return nodes[spec["node"] % len(nodes)]
 
 
@@ -76,6 +82,8 @@ def apply(root, spec):
         if not keys:
             return root, note + ":skip"
         k = keys[spec["idx"] % len(keys)]
+        if op == "append" and spec.get("pe"):
+            k = next((x for x in keys if not n.args[x]), k)
         if op == "append":
             n.append(k, _new(spec))
         elif op == "set_list":
